@@ -128,6 +128,47 @@ def shards(tier: str, seed: int) -> list[dict]:
     return [{"seed": seed * 1000 + i, "n": per} for i in range(n_sh)]
 
 
+def _method_names(res: genrun.GenResult) -> list[tuple[str, tuple[str, ...]]]:
+    """[(endpoint module, sorted public async method names of its client class)] read from the emitted sources."""
+    import ast
+    import os
+
+    out = []
+    d = os.path.join(res.out_dir, "endpoints")
+    for fn in sorted(os.listdir(d)) if os.path.isdir(d) else []:
+        if not fn.endswith(".py") or fn == "__init__.py":
+            continue
+        tree = ast.parse(open(os.path.join(d, fn), encoding="utf-8").read())
+        names: set[str] = set()
+        for cls in [n for n in tree.body if isinstance(n, ast.ClassDef) and not n.name.endswith("Protocol")]:
+            names |= {f.name for f in cls.body if isinstance(f, ast.AsyncFunctionDef) and not f.name.startswith("__")}
+        out.append((fn, tuple(sorted(names))))
+    return out
+
+
+def naming_sequence_violations(case: dict, res: genrun.GenResult) -> list[Violation]:
+    """History: the SAME document file generated again in this process with another naming strategy must give exactly what a
+    first generation with that strategy gives (method names follow the selected strategy, not an earlier call's)."""
+    order = ["operationId", "clean", "path"]
+    other = order[(order.index(case["cfg"]["naming"]) + 1) % 3]
+    cfg2 = {**case["cfg"], "naming": other, "prefix": genrun.unique_prefix()}
+    again = genrun.generate({**case, "cfg": cfg2}, spec_path=res.spec_path)  # same file (same path, mtime, size), other strategy
+    fresh = genrun.generate({**case, "cfg": {**cfg2, "prefix": genrun.unique_prefix()}})  # the same document written to a new file
+    try:
+        if not (again.ok and fresh.ok):
+            if again.ok != fresh.ok:
+                return [Violation(("naming_sequence", "outcome_differs"), f"second run ok={again.ok} ({again.error}), first run with {other} ok={fresh.ok} ({fresh.error})"[:400])]
+            return []
+        a, f = _method_names(again), _method_names(fresh)
+        if a != f:
+            return [Violation(("naming_sequence", "method_names_follow_an_earlier_call", case["cfg"]["naming"] + "_then_" + other),
+                              f"after {case['cfg']['naming']}: {a} ; first generation with {other}: {f}"[:700])]
+        return []
+    finally:
+        genrun.cleanup(again)
+        genrun.cleanup(fresh)
+
+
 def _role(rel: str) -> str:
     from .c01 import role_of
 
@@ -159,7 +200,9 @@ def run_shard(shard: dict) -> dict:
             except (ImportError, SyntaxError, NameError) as e:
                 col.record(case, [Violation(("package_unusable_operations_unreachable", type(e).__name__, "import"), f"{e!r}"[:300])], nontrivial(case["spec"]), ["package_unusable"])
                 continue
-            labs = [f"naming_{case['cfg']['naming']}", f"fmt_{case['cfg']['fmt']}"]
+            if i % 3 == 0:
+                viols = list(viols) + naming_sequence_violations(case, res)
+            labs = [f"naming_{case['cfg']['naming']}", f"fmt_{case['cfg']['fmt']}"] + (["naming_sequence_checked"] if i % 3 == 0 else [])
             if viols and viols[0].sig == ("__unprobed__",):
                 col.classes["undecided_probe_failed"] += 1
                 col.extra.setdefault("probe_failures", [])
